@@ -256,7 +256,13 @@ pub fn gen(rng: &mut Rng, thorough: bool, sink: &mut Sink) {
     (8, vec![jwk_ed.clone(), jwk_ec.clone(), jwk_rsa.clone(), json!({"kty": "oct", "k": "AAAA"}), json!({"kty": "EC", "crv": "secp256k1", "x": "AAAA", "y": "AAAA"}), json!({"kty": "OKP", "crv": "Ed25519", "x": "AA", "d": "AA"})]),
     (9, vec![json!({"keys": [jwk_ed.clone(), jwk_ec.clone()]})]), (11, vec![flat.clone()]), (12, vec![general.clone()]),
     (13, vec![serde_json::from_str(DOC).unwrap()]), (14, vec![iota_doc.clone()]), (16, vec![cred.clone()]), (17, vec![pres.clone()]), (18, vec![cred["credentialStatus"].clone(), json!({"id": "https://example.com/status#94567", "type": "StatusList2021Entry", "statusPurpose": "revocation", "statusListIndex": "94567", "statusListCredential": "https://example.com/status"})]),
-    (20, vec![serde_json::from_str::<Value>(DOC).unwrap()["service"][0].clone()]), (25, vec![serde_json::from_str::<Value>(DOC).unwrap()["verificationMethod"][0].clone(), json!({"id": "did:a:b#k", "controller": "did:a:b", "type": "Ed25519VerificationKey2018", "publicKeyMultibase": "z6Mk"}), json!({"id": "did:a:b", "controller": "did:a:b", "type": "X", "publicKeyBase58": "0OIl"})]),
+    (20, vec![serde_json::from_str::<Value>(DOC).unwrap()["service"][0].clone()]), (25, vec![serde_json::from_str::<Value>(DOC).unwrap()["verificationMethod"][0].clone(), json!({"id": "did:a:b#k", "controller": "did:a:b", "type": "Ed25519VerificationKey2018", "publicKeyMultibase": "z6Mk"}), json!({"id": "did:a:b", "controller": "did:a:b", "type": "X", "publicKeyBase58": "0OIl"}),
+      // multibase / base58 texts whose FIRST character is multi-byte, that are empty, one character long, or of an unknown base
+      json!({"id": "did:a:b#k", "controller": "did:a:b", "type": "X", "publicKeyMultibase": "\u{e9}6Mk"}), json!({"id": "did:a:b#k", "controller": "did:a:b", "type": "X", "publicKeyMultibase": "\u{20ac}abc"}),
+      json!({"id": "did:a:b#k", "controller": "did:a:b", "type": "X", "publicKeyMultibase": "\u{1f574}"}), json!({"id": "did:a:b#k", "controller": "did:a:b", "type": "X", "publicKeyMultibase": ""}),
+      json!({"id": "did:a:b#k", "controller": "did:a:b", "type": "X", "publicKeyMultibase": "z"}), json!({"id": "did:a:b#k", "controller": "did:a:b", "type": "X", "publicKeyMultibase": "z\u{e9}"}),
+      json!({"id": "did:a:b#k", "controller": "did:a:b", "type": "X", "publicKeyMultibase": "?abc"}), json!({"id": "did:a:b#k", "controller": "did:a:b", "type": "X", "publicKeyMultibase": "mAQID"}),
+      json!({"id": "did:a:b#k", "controller": "did:a:b", "type": "X", "publicKeyBase58": "\u{e9}"}), json!({"id": "did:a:b#k", "controller": "did:a:b", "type": "X", "publicKeyBase58": ""})]),
     (30, vec![json!(["a", "b"]), json!("a"), json!(["a", "a"]), json!([])]),
     (34, vec![json!({"id": "did:example:issuer#dl", "type": "LinkedDomains", "serviceEndpoint": {"origins": ["https://foo.example.com", "https://bar.example.com"]}}), json!({"id": "did:example:issuer#dl", "type": ["LinkedDomains"], "serviceEndpoint": "https://foo.example.com"}),
               json!({"id": "did:example:issuer#dl", "type": "LinkedDomains", "serviceEndpoint": {"origin": ["https://foo.example.com"]}}), json!({"id": "did:example:issuer#dl", "type": "LinkedDomains", "serviceEndpoint": {"other": [], "origins": []}}), json!({"id": "did:example:issuer#dl", "type": "LinkedDomains", "serviceEndpoint": ["https://foo.example.com"]})]),
